@@ -10,6 +10,7 @@ From Coq Require Import ZArith String List Bool.
 From SID Require Import Base Str Ids Wire Shift Neighbour NeighbourChk.
 Import ListNotations.
 Open Scope string_scope.
+Open Scope list_scope.
 
 Definition corr_set (m o : list string) : bool := set_eq m o && Nat.eqb (List.length m) (List.length o).
 Definition of_opt_bool (corr : bool) (p : option bool) (m : val) : verdict :=
@@ -70,6 +71,104 @@ Definition d_symN (args : list val) (obs : val) : verdict :=
   | _, _ => bad_case
   end.
 
+(* ---- History entry --------------------------------------------------------------------------------------------------------------
+   The property quantifies over every history of exported calls.  One case of this entry is a whole history, performed back to back by
+   the invoker in one call (after a fixed unrelated priming prefix, so that a replay in a fresh process runs the same history):
+     steps = list of  [fname; <arguments of the plain entry fname>; <caller-side options>]   with
+       Get6/Get8/Get26 : [VS fname; VS id; VZ mut]                     mut <> 0: the caller overwrites the slice it was handed, after reading it
+       GetN            : [VS fname; ids; VZ H; VZ V; VZ mut; VL over]  mut as above; over: strings the caller writes into ITS OWN argument
+                                                                        slice after the call (element-wise)
+       OwnParseAndMutate : [VS "OwnParseAndMutate"; VS id; VL ops]      the caller parses id itself (object.NewExtendedSpatialID) and mutates ITS
+                                                                        OWN object: [SetX n] [SetY n] [SetZ n] [SetZoom h v] [ResetExtendedSpatialID s]
+   observed = the list of the results in order (VNil for OwnParseAndMutate).  The models are pure functions of a step's own arguments, so
+   every step is judged exactly like the standalone call of the plain entry (step_verdict / history_* theorems below): whatever the caller
+   did to its own slices and objects, and whatever was asked before, cannot change what a call must return. *)
+Definition plain_table : table :=
+  [("Get6spatialIdsAdjacentToFaces", fun _ => d_fixed n6_api offs6);
+   ("Get8spatialIdsAroundHorizontal", fun _ => d_fixed n8_api offs8);
+   ("Get26spatialIdsAroundVoxel", fun _ => d_fixed n26_api offs26);
+   ("GetNspatialIdsAroundVoxcels", fun _ => d_N)].
+Definition no_oracle : oracle_t := fun _ _ => VNil.
+Definition own_op_ok (v : val) : bool :=
+  match v with
+  | VL [VS name; VZ n] => existsb (String.eqb name) ["SetX"; "SetY"; "SetZ"] && int64_ok n
+  | VL [VS name; VZ h; VZ v] => String.eqb name "SetZoom" && int64_ok h && int64_ok v
+  | VL [VS name; VS _] => String.eqb name "ResetExtendedSpatialID"
+  | _ => false
+  end.
+Definition all_strings (l : list val) : bool := forallb (fun v => match v with VS _ => true | _ => false end) l.
+(* the plain call a step stands for: entry name and the arguments of that entry (caller-side options stripped); None = not a call *)
+Definition step_plain (s : val) : option (string * list val) :=
+  match s with
+  | VL [VS fn; VS id; VZ _] =>
+      if existsb (String.eqb fn) ["Get6spatialIdsAdjacentToFaces"; "Get8spatialIdsAroundHorizontal"; "Get26spatialIdsAroundVoxel"]
+      then Some (fn, [VS id]) else None
+  | VL [VS fn; ids; VZ H; VZ V; VZ _; VL over] =>
+      if String.eqb fn "GetNspatialIdsAroundVoxcels" && all_strings over then Some (fn, [ids; VZ H; VZ V]) else None
+  | _ => None
+  end.
+Definition is_own_step (s : val) : bool :=
+  match s with
+  | VL [VS fn; VS _; VL ops] => String.eqb fn "OwnParseAndMutate" && forallb own_op_ok ops
+  | _ => false
+  end.
+Definition step_verdict (s o : val) : verdict :=
+  match step_plain s with
+  | Some (fn, a) => run_table plain_table no_oracle fn a o
+  | None => if is_own_step s then match o with VNil => mkv true true "-" VNil | _ => bad_case end else bad_case
+  end.
+Fixpoint hist_verdicts (steps obs : list val) : option (list verdict) :=
+  match steps, obs with
+  | [], [] => Some []
+  | s :: st, o :: ob => match hist_verdicts st ob with Some r => Some (step_verdict s o :: r) | None => None end
+  | _, _ => None
+  end.
+Definition is_bad (v : verdict) : bool := negb (String.eqb (v_class v) "-").
+Definition d_history (args : list val) (obs : val) : verdict :=
+  match args, obs with
+  | [VL steps], VL ob =>
+      match hist_verdicts steps ob with
+      | Some vs =>
+          if existsb is_bad vs then bad_case
+          else mkv (forallb v_corr vs) (forallb v_prop vs) "-" (VL (map v_model vs))
+      | None => bad_case
+      end
+  | _, _ => bad_case
+  end.
+
+(* a step that stands for a call is judged by the plain entry on the call's own arguments, whatever the caller-side options *)
+Theorem step_is_plain_call_fixed fn id mut o :
+  existsb (String.eqb fn) ["Get6spatialIdsAdjacentToFaces"; "Get8spatialIdsAroundHorizontal"; "Get26spatialIdsAroundVoxel"] = true ->
+  step_verdict (VL [VS fn; VS id; VZ mut]) o = run_table plain_table no_oracle fn [VS id] o.
+Proof. intros H. unfold step_verdict, step_plain. now rewrite H. Qed.
+Theorem step_is_plain_call_N ids H V mut over o : all_strings over = true ->
+  step_verdict (VL [VS "GetNspatialIdsAroundVoxcels"; ids; VZ H; VZ V; VZ mut; VL over]) o = d_N [ids; VZ H; VZ V] o.
+Proof.
+  intros A. unfold step_verdict, step_plain.
+  destruct ids; cbn [String.eqb Ascii.eqb Bool.eqb andb]; rewrite ?A; reflexivity.
+Qed.
+(* history independence: the verdict (and the expected answer) of a step does not depend on what precedes or follows it *)
+Theorem history_independent pre post s opre opost o : List.length pre = List.length opre ->
+  exists vpre, hist_verdicts pre opre = Some vpre /\
+    forall vpost, hist_verdicts post opost = Some vpost ->
+      hist_verdicts (pre ++ s :: post) (opre ++ o :: opost) = Some (vpre ++ step_verdict s o :: vpost).
+Proof.
+  revert opre. induction pre as [|a pre IH]; intros [|b opre] L; try discriminate.
+  - exists []. split; [reflexivity|]. intros vpost E. cbn. now rewrite E.
+  - injection L as L. destruct (IH opre L) as (vpre & E1 & E2).
+    exists (step_verdict a b :: vpre). split; [cbn; now rewrite E1|].
+    intros vpost E. cbn. now rewrite (E2 vpost E).
+Qed.
+(* a whole history passes exactly when every step passes as a standalone call *)
+Theorem history_passes_iff steps ob vs : hist_verdicts steps ob = Some vs -> existsb is_bad vs = false ->
+  (v_corr (d_history [VL steps] (VL ob)) = true /\ v_prop (d_history [VL steps] (VL ob)) = true <->
+   forall v, In v vs -> v_corr v = true /\ v_prop v = true).
+Proof.
+  intros E B. unfold d_history. rewrite E, B. cbn [v_corr v_prop mkv]. rewrite !forallb_forall. split.
+  - intros [A C] v Hv. auto.
+  - intros H. split; intros v Hv; now apply H.
+Qed.
+
 Definition table_C08 : table :=
   [("Get6spatialIdsAdjacentToFaces", fun _ => d_fixed n6_api offs6);
    ("Get8spatialIdsAroundHorizontal", fun _ => d_fixed n8_api offs8);
@@ -78,4 +177,5 @@ Definition table_C08 : table :=
    ("Sym6", fun _ => d_sym n6_api);
    ("Sym8", fun _ => d_sym n8_api);
    ("Sym26", fun _ => d_sym n26_api);
-   ("SymN", fun _ => d_symN)].
+   ("SymN", fun _ => d_symN);
+   ("History", fun _ => d_history)].
